@@ -846,11 +846,17 @@ pub fn check_history(hist: &Hist, rep: &mut Report) {
             continue;
         }
         rep.count("ho_c02_lookups_checked");
+        if hist.h.cfg.collide {
+            rep.count("ho_lookups_under_index_collision");
+        }
         let tl = |upto: u64| json!({"history": d, "timeline_of_key": key_timeline(hist, o.key, upto)});
         if o.hit {
             // R1
             if o.seen_key != o.key {
                 rep.violate("C02", "lookup/foreign-value", format!("{}: returned a value written under key {}", o.short(), o.seen_key), tl(o.ret));
+                if hist.h.cfg.collide {
+                    rep.violate("C18", "lookup/foreign-value", format!("{}: returned a value written under the colliding key {}", o.short(), o.seen_key), tl(o.ret));
+                }
                 continue;
             }
             // R2
@@ -1135,7 +1141,10 @@ pub fn gen_history(prop: &str, rng: &mut Rng, hno: u64) -> HCfg {
             metrics: true,
             ignore_internal: true,
             cleanup: Some(Duration::from_millis(*rng.pick(&[100u64, 500, 1000, 2000]))),
-            collide: false,
+            // a third of the C02 / C18 histories run under the colliding key builder (keys 2i and 2i+1 share an
+            // index hash, distinct non-zero conflict hashes): buffered inserts and removes of colliding keys
+            // race each other here, which the lockstep histories (quiescent after every step) cannot produce
+            collide: mode == "mixed" && (prop == "C18" || (prop == "C02" && hno % 3 == 2)),
             collide_zero_even: false,
             manual_ticker: true,
         },
@@ -1168,7 +1177,19 @@ pub fn run(ctx: &Ctx, rng: Rng, rep: &mut Report) {
         let mut stop = false;
         match sup {
             Sup::Done(hist) => {
-                check_history(&hist, rep);
+                if h.cfg.collide {
+                    // under index collisions only the value clauses (C02, C18) are decided: the policy is keyed
+                    // by the index hash alone, so charges, metrics and callbacks of colliding keys interfere in
+                    // ways the other statements do not speak about (DESIGN section 3, "not alarmed on")
+                    let mut sub = Report::default();
+                    check_history(&hist, &mut sub);
+                    sub.violations.retain(|v| matches!(v.property.as_str(), "C02" | "C18"));
+                    sub.violation_counts.retain(|k, _| k.starts_with("C02|") || k.starts_with("C18|"));
+                    rep.merge(sub);
+                    rep.count("ho_histories_colliding_keys");
+                } else {
+                    check_history(&hist, rep);
+                }
                 rep.count("ho_histories");
                 rep.count(&format!("ho_histories_{}", flavor.name()));
                 rep.states.insert(hash_of(&(hist.snap.store.iter().map(|e| (e.index, e.tag)).collect::<Vec<_>>(), hist.snap.used)));
